@@ -47,7 +47,7 @@ func (d *discardProc) InsertRevokedCertificate(e *crlreader.CRLEntry) error {
 	}
 	return nil
 }
-func (d *discardProc) UpdateExtendedMetaInfo(*crlreader.ExtendedCRLMetaInfo) error { return nil }
+func (d *discardProc) UpdateExtendedMetaInfo(*crlreader.ExtendedCRLMetaInfo) error  { return nil }
 func (d *discardProc) UpdateSignatureCertificate(*core.CertificateChainEntry) error { return nil }
 
 func c17Doc(n int, pemEnc bool) []byte {
@@ -311,13 +311,13 @@ func RunC17(tier string, args []string) int {
 		distinct++
 	}
 	cov := fw.Coverage{
-		"evaluations":         evals,
-		"distinct_nontrivial": distinct,
-		"rule":                fmt.Sprintf("entry counts: every N in [0,256] and N = 2^k for k = 9..%d (DER, PEM for selected N) through the real reader with a discarding processor; transfer sizes %v bytes via URL download and file copy; whole disk path with N in %v. Non-trivial = N > 1 (the loop iterates).", maxK, sizes, diskN),
-		"heap_samples":        samples,
+		"evaluations":            evals,
+		"distinct_nontrivial":    distinct,
+		"rule":                   fmt.Sprintf("entry counts: every N in [0,256] and N = 2^k for k = 9..%d (DER, PEM for selected N) through the real reader with a discarding processor; transfer sizes %v bytes via URL download and file copy; whole disk path with N in %v. Non-trivial = N > 1 (the loop iterates).", maxK, sizes, diskN),
+		"heap_samples":           samples,
 		"disk_peak_growth_bytes": growths,
-		"samples":             []string{"N=256 DER", fmt.Sprintf("N=%d PEM", 1<<maxK), "64 MiB lazily produced download body", fmt.Sprintf("disk path N=%d", diskN[0])},
-		"exhaustive":          true,
+		"samples":                []string{"N=256 DER", fmt.Sprintf("N=%d PEM", 1<<maxK), "64 MiB lazily produced download body", fmt.Sprintf("disk path N=%d", diskN[0])},
+		"exhaustive":             true,
 	}
 	return chk.Finish(cov)
 }
